@@ -148,6 +148,7 @@ DefaultFields == <<"title", "body">>
 (*  <<"bin", qs, ops>> q1 op1 q2 op2 ... with ops \in "AND" "OR"; AND binds tighter            *)
 (*  <<"grp", f, cl>> f:( ... ) - the clauses are words without a field of their own            *)
 (*  <<"boost", q, b>> <<"paren", q>>                                                           *)
+(*  <<"chain", items, ops>> operands with markers in an unparenthesised AND / OR / juxtaposition chain *)
 Has(s, x) == \E p \in 1..Len(s) : s[p] = x
 FieldWords(d, f) == IF f = "title" THEN d.title ELSE d.body
 TextFields(f) == IF f = "" THEN SeqSet(DefaultFields) ELSE {f}
@@ -170,11 +171,55 @@ InBound(v, lo, hi) ==
   /\ CASE hi[1] = "incl" -> v <= hi[2] [] hi[1] = "excl" -> v < hi[2] [] OTHER -> TRUE
 FieldVal(d, f) == CASE f = "n" -> d.n [] f = "i" -> d.i [] f = "d" -> d.d [] f = "ip" -> d.ip [] f = "flag" -> d.flag
 
+(* <<"chain", items, ops>>: operands item = <<mark, q>>, mark \in "" "+" "-" "NOT", joined by ops \in     *)
+(* "AND" "OR" "" (juxtaposition), without parentheses.  The grammar reads such a chain as a list of   *)
+(* clauses (ChainToBool), "trying to make sense of what a user meant" (query_grammar.rs):              *)
+(*  - AND binds tighter: an operand followed by AND opens a group, operands preceded by AND join it;   *)
+(*    in a group an unmarked operand is required, a marker applies to its operand; a group of several  *)
+(*    operands is one optional clause of the list;                                                     *)
+(*  - an operand alone in its group is a clause of the list with its marker; unmarked it is optional   *)
+(*    next to an OR and follows the default mode between juxtapositions;                               *)
+(*  - `-x` next to an OR and not opening an AND group becomes an optional clause made of the exclusion *)
+(*    only (it selects nothing and excludes nothing);                                                  *)
+(*  - `NOT x` is the clause list (-x); it dissolves into -x only as an unmarked juxtaposed operand.     *)
+(*    That last simplification is not made anywhere below a boost (`(a NOT b)^2`: the parser's tidying *)
+(*    pass does not look inside a boosted sub-query) - there the chain is a "rawchain" (RawQ).         *)
+(* Where the documentation speaks (AND / OR precedence, an exclusion inside an AND group: `a OR -b     *)
+(* AND c` = a OR (c AND NOT b)) this is the documented meaning - lemma MC_Grammar!ChainDocumented.     *)
+ChainMember(items, ops, i, collapse) ==
+  LET n == Len(items)
+      mark == items[i][1]
+      ast == IF mark = "NOT" THEN <<"bool", << <<"-", items[i][2]>> >>>> ELSE items[i][2]
+      p == IF i = 1 THEN "" ELSE ops[i - 1]
+      nx == IF i = n THEN "end" ELSE ops[i]
+      def == CASE p = "AND" \/ nx = "AND" -> "+" [] p = "OR" \/ nx = "OR" -> "?" [] OTHER -> ""
+  IN  IF mark = "-" /\ p # "AND" /\ def = "?" THEN <<"?", <<"bool", << <<"-", ast>> >>>>>>
+      ELSE IF collapse /\ mark = "NOT" /\ def = "" THEN <<"-", items[i][2]>>
+      ELSE <<IF mark \in {"+", "-"} THEN mark ELSE def, ast>>
+RECURSIVE ChainGroups(_, _, _, _, _)
+ChainGroups(items, ops, i, acc, collapse) ==       \* acc = groups so far, the last one still open
+  IF i > Len(items) THEN acc
+  ELSE IF i > 1 /\ ops[i - 1] = "AND"
+       THEN ChainGroups(items, ops, i + 1, [acc EXCEPT ![Len(acc)] = Append(@, ChainMember(items, ops, i, collapse))], collapse)
+       ELSE ChainGroups(items, ops, i + 1, Append(acc, <<ChainMember(items, ops, i, collapse)>>), collapse)
+ChainToBool(q) ==
+  LET g == ChainGroups(q[2], q[3], 1, <<>>, q[1] = "chain") IN
+  IF Len(g) = 1 THEN <<"bool", g[1]>>
+  ELSE <<"bool", [k \in 1..Len(g) |-> IF Len(g[k]) = 1 THEN g[k][1] ELSE <<"?", <<"bool", g[k]>>>>]>>
+
+RECURSIVE RawQ(_)
+RawQ(q) == CASE q[1] = "chain" -> <<"rawchain", [x \in 1..Len(q[2]) |-> <<q[2][x][1], RawQ(q[2][x][2])>>], q[3]>>
+             [] q[1] = "bool"  -> <<"bool", [x \in 1..Len(q[2]) |-> <<q[2][x][1], RawQ(q[2][x][2])>>]>>
+             [] q[1] = "bin"   -> <<"bin", [x \in 1..Len(q[2]) |-> RawQ(q[2][x])], q[3]>>
+             [] q[1] = "paren" -> <<"paren", RawQ(q[2])>>
+             [] q[1] = "boost" -> <<"boost", RawQ(q[2]), q[3]>>
+             [] OTHER -> q
+
 RECURSIVE M(_, _, _, _)
 \* does document d match q?  conj = conjunction-by-default; sc = field scope given by a group
 MClauses(cl, d, conj, sc) ==
   LET must == {k \in 1..Len(cl) : cl[k][1] = "+" \/ (conj /\ cl[k][1] = "")}
-      should == {k \in 1..Len(cl) : ~conj /\ cl[k][1] = ""}
+      should == {k \in 1..Len(cl) : cl[k][1] = "?" \/ (~conj /\ cl[k][1] = "")}    \* "?" = optional in both modes (never printed)
       mustnot == {k \in 1..Len(cl) : cl[k][1] = "-"}
   IN  /\ \A k \in must : M(cl[k][2], d, conj, sc)
       /\ \A k \in mustnot : ~M(cl[k][2], d, conj, sc)
@@ -205,17 +250,25 @@ M(q, d, conj, sc) ==
              starts == {1} \cup {k \in 2..n : q[3][k - 1] = "OR"}
              EndOf(s) == CHOOSE e \in s..n : (e = n \/ q[3][e] = "OR") /\ \A x \in s..(e - 1) : q[3][x] = "AND"
          IN \E s \in starts : \A k \in s..EndOf(s) : M(q[2][k], d, conj, sc)
-    [] q[1] = "boost" -> M(q[2], d, conj, sc)
+    [] q[1] = "boost" -> M(RawQ(q[2]), d, conj, sc)
     [] q[1] = "paren" -> M(q[2], d, conj, sc)
+    [] q[1] \in {"chain", "rawchain"} -> M(ChainToBool(q), d, conj, sc)
 MatchSet(q, conj) == {k \in 1..ND : M(q, Docs[k], conj, "")}
 \* a query whose every top-level clause is negative is refused ("Only excluding terms given");
 \* the lenient parser reports that error and answers everything but the excluded documents
 RECURSIVE AllNegative(_)
 AllNegative(q) == CASE q[1] = "bool" -> \A k \in 1..Len(q[2]) : q[2][k][1] = "-" \/ AllNegative(q[2][k][2])
-                    [] q[1] \in {"boost", "paren"} -> AllNegative(q[2])
+                    [] q[1] = "paren" -> AllNegative(q[2])
+                    [] q[1] = "boost" -> AllNegative(RawQ(q[2]))
+                    [] q[1] \in {"chain", "rawchain"} -> AllNegative(ChainToBool(q))
                     [] OTHER -> FALSE
-RECURSIVE NegatedSet(_, _)
-NegatedSet(q, conj) == {k \in 1..ND : ~\E c \in 1..Len(q[2]) : M(q[2][c][2], Docs[k], conj, "")}
+\* ... the lenient parser adds "or anything" to the outermost clause list
+RECURSIVE NonNegative(_)
+NonNegative(q) == CASE q[1] = "bool" -> <<"bool", Append(q[2], <<"?", <<"all">>>>)>>
+                    [] q[1] \in {"chain", "rawchain"} -> NonNegative(ChainToBool(q))
+                    [] q[1] = "boost" -> <<"boost", NonNegative(RawQ(q[2])), q[3]>>
+                    [] OTHER -> <<q[1], NonNegative(q[2])>>
+NegatedSet(q, conj) == MatchSet(NonNegative(q), conj)
 
 ---------------------------------------------------------------------------
 (* 3. printing.  st is a sequence of small numbers (the style); Sty(st, k) reads the k-th,      *)
@@ -278,6 +331,10 @@ P(q, st, k) ==
     [] q[1] = "grp"   -> FieldPrefix(q[2], Sty(st, k)) \o <<LPAR>> \o Blanks(Sty(st, k + 1) % 2) \o PClauses(q[3], st, k + 2) \o Blanks(Sty(st, k + 2) % 2) \o <<RPAR>>
     [] q[1] = "bin"   -> JoinWith([x \in 1..Len(q[2]) |-> (IF x = 1 THEN <<>> ELSE (IF q[3][x - 1] = "AND" THEN K_AND ELSE K_OR) \o Blanks(1 + (Sty(st, k + x) % 2)))
                                                           \o P(q[2][x], st, k + 5 * x)], Blanks(1 + (Sty(st, k) % 2)))
+    [] q[1] = "chain" -> JoinWith([x \in 1..Len(q[2]) |->
+                                     (IF x = 1 \/ q[3][x - 1] = "" THEN <<>> ELSE (IF q[3][x - 1] = "AND" THEN K_AND ELSE K_OR) \o Blanks(1 + (Sty(st, k + x) % 2)))
+                                     \o (CASE q[2][x][1] = "+" -> <<43>> [] q[2][x][1] = "-" -> <<45>> [] q[2][x][1] = "NOT" -> <<78, 79, 84>> \o Blanks(1 + (Sty(st, k + x + 1) % 2)) [] OTHER -> <<>>)
+                                     \o P(q[2][x][2], st, k + 5 * x)], Blanks(1 + (Sty(st, k) % 2)))
     [] q[1] = "boost" -> P(q[2], st, k + 1) \o <<CARET>> \o IntText(q[3]) \o (IF Sty(st, k) % 2 = 0 THEN <<>> ELSE <<46, 53>>)
     [] q[1] = "paren" -> <<LPAR>> \o Blanks(Sty(st, k) % 2) \o P(q[2], st, k + 1) \o Blanks(Sty(st, k + 1) % 2) \o <<RPAR>>
 \* the whole query: optional blanks around it, optionally one more pair of parentheses
